@@ -1130,6 +1130,14 @@ def rule_T6(ctx, rid='T6'):
         elif isinstance(it, ast.Call) and dotted(it.func) == 'sorted' and any(
                 k.arg == 'reverse' and const_value(k.value) is True for k in it.keywords):
             desc, src = True, it.args[0]
+        if isinstance(src, ast.Name):
+            # the index array was bound to a local first: follow its single definition
+            owner = [lf for lf in loop_funcs if any(x is lp for x in ast.walk(lf.node))]
+            defs_ = [st_ for lf in owner for st_ in walk_no_nested(lf.node)
+                     if isinstance(st_, ast.Assign) and len(st_.targets) == 1 and
+                     isinstance(st_.targets[0], ast.Name) and st_.targets[0].id == src.id]
+            if len(defs_) == 1:
+                src = defs_[0].value
         asc_src = isinstance(src, ast.Call) and dotted(src.func) in ('np.flatnonzero',
                                                                     'np.nonzero', 'np.where')
         ctx.ob(rid, 'Sampler.run:removal-descending', desc and asc_src, run.where(lp),
